@@ -14,7 +14,7 @@
      takes its result ([None] = it returned NULL);
    * the tokener — json_tokener_parse_ex is C01's business; the read side takes
      [parse : depth -> bytes -> option value] ([None] = NULL with an error);
-   * printbuf_memappend — by C19 (PbProofs.memappend_refines, fitting_request_served) a
+   * printbuf_memappend — by C19 (PbProofs.step_spec, fitting_request_served) a
      successful append IS list append and a refused one leaves the buffer unchanged, so the
      accumulated buffer is a plain [list byte] extended with [++]; whether an append
      succeeds (allocator, INT_MAX bound) is the oracle [app_ok len n].
